@@ -73,14 +73,34 @@ def check_cov(case, stats):
 
 @st.composite
 def rca_case(draw):
-  desc = draw(gen.dataset_desc(dmax=8))
+  few = draw(st.integers(0, 2)) == 0
+  desc = draw(gen.dataset_desc(dmin=5 if few else 2, dmax=8))
   d = desc['d']
-  return dict(kind='rca', desc=desc, k=draw(st.one_of(st.none(), st.integers(1, d), st.integers(1, d))),
-              cseed=draw(st.integers(0, 10 ** 6)), singleton=draw(st.booleans()), gaps=draw(st.booleans()))
+  k = draw(st.one_of(st.none(), st.integers(1, d), st.integers(1, d)))
+  if few:
+    k = draw(st.integers(2, d - 1))      # reduced dimension larger than the number of chunks
+  return dict(kind='rca', desc=desc, k=k,
+              cseed=draw(st.integers(0, 10 ** 6)), singleton=draw(st.booleans()), gaps=draw(st.booleans()),
+              few=few)
 
 
 def make_chunk_layout(data, case):
   rs = np.random.RandomState(case['cseed'])
+  if case.get('few'):
+    # FEW BIG chunks: every class is one chunk (or is split in two), a few points stay unchunked - the between-chunk
+    # scatter then has rank <= n_chunks - 1 << d and the pencil (C, T) has a repeated eigenvalue
+    chunks = -np.ones(data.n, dtype=int)
+    cid = 0
+    for c in np.unique(data.y):
+      idx = rs.permutation(np.flatnonzero(data.y == c))
+      if len(idx) >= 8 and rs.rand() < 0.3:
+        halves = [idx[:len(idx) // 2], idx[len(idx) // 2:]]
+      else:
+        halves = [idx]
+      for h in halves:
+        chunks[h[:max(2, len(h) - rs.randint(0, 2))]] = cid
+        cid += 1
+    return chunks
   chunks = gen.make_chunks(data.y, rs, data.d, holes=True)
   if case['singleton']:
     free = np.flatnonzero(chunks == -1)
@@ -130,7 +150,8 @@ def check_rca(case, stats):
     if np.abs(got - want).max() > 1e-7 * max(np.abs(ref).max(), 1e-300) * max(1.0, condC ** 0.5):
       raise Violation('C09/RCA/retained-subspace', 'retained within/total eigenvalues %s, the %d smallest are %s' % (got, kk, want))
   stats.case(case, k is not None or case['singleton'] or case['gaps'] or bool((chunks == -1).any()),
-             ['RCA', 'rca:reduced' if kk < d else 'rca:full', 'rca:holes' if (chunks == -1).any() else 'rca:all-chunked'])
+             ['RCA', 'rca:reduced' if kk < d else 'rca:full', 'rca:holes' if (chunks == -1).any() else 'rca:all-chunked',
+              'rca:few-big-chunks' if case.get('few') else 'rca:many-chunks'])
 
 
 # ------------------------------------------------------------------------------------- LFDA
